@@ -514,14 +514,36 @@ where
     pub fn remove(&mut self, key: Handle) -> Option<T> {
         let ind = self.find_ind(key);
         unsafe {
-            let kptr = self.handles.as_ptr().add(ind);
-            if (*kptr).0 != 0 {
-                self.count -= 1;
-                *kptr = Handle(0);
-                Some(std::ptr::read(self.values.as_ptr().add(ind)))
-            } else {
-                None
+            if (*self.handles.as_ptr().add(ind)).0 == 0 {
+                return None;
             }
+            self.count -= 1;
+            *self.handles.as_ptr().add(ind) = Handle(0);
+            let result = std::ptr::read(self.values.as_ptr().add(ind));
+
+            // backward shift deletion: entries that probed past the removed slot are moved back
+            // so that no probe chain is cut by the new hole
+            let cap = self.capacity;
+            let mask = cap - 1;
+            let mut hole = ind;
+            let mut j = (ind + 1) & mask;
+            loop {
+                let k = *self.handles.as_ptr().add(j);
+                if k.0 == 0 {
+                    break;
+                }
+                let home = (k.0.wrapping_mul(2654435769) as usize) & mask;
+                // the hole lies on the probe path of `k` iff it is at least as far from j as home is
+                if ((j + cap - home) & mask) >= ((j + cap - hole) & mask) {
+                    *self.handles.as_ptr().add(hole) = k;
+                    let value = std::ptr::read(self.values.as_ptr().add(j));
+                    std::ptr::write(self.values.as_ptr().add(hole), value);
+                    *self.handles.as_ptr().add(j) = Handle(0);
+                    hole = j;
+                }
+                j = (j + 1) & mask;
+            }
+            Some(result)
         }
     }
 }
